@@ -445,6 +445,13 @@ DataclassCase(c) ==
                 Chk("node-only-in-its-namespace", c.leaf_in_other_namespace) \o
                 Chk("decorating-twice-rejected", c.twice_rejected) \o
                 (IF Has(c, "same_as_stdlib") THEN Chk("same-class-as-dataclasses", c.same_as_stdlib) ELSE <<>>)))
+\* a dataclass registered by hand (AutoEntry, no explicit entries): integer entry i addresses the i-th __init__ field
+DataclassHand(c) ==
+  Chk("auto-entry-is-DataclassEntry", c.entry_class = "DataclassEntry" /\ c.entries_are_ints) \o
+  Chk("accessor-addresses-the-leaf", \A j \in DOMAIN c.accessor_hits : c.accessor_hits[j]) \o
+  Chk("codify-evaluates-to-the-leaf", \A j \in DOMAIN c.codify_hits : c.codify_hits[j]) \o
+  Chk("field-name-is-the-init-field", c.fields = c.init_names)
+
 PartialCase(c) ==
   Chk("flattens-to-(args,keywords)-in-every-namespace",
       c["leaves_ok[]"] /\ c["leaves_ok[a]"] /\ c["leaves_ok[never-used-namespace]"]
@@ -562,6 +569,7 @@ Verdict(c) ==
     [] c.op = "c02laws" -> C02Laws(c)
     [] c.op = "c03extra" -> C03Extra(c)
     [] c.op = "depth" -> DepthCase(c)
+    [] c.op = "class-object-leaf" -> Chk(c.name \o ":is-a-leaf", c.err = "" /\ c.ok)
     [] c.op = "pair" -> PairCase(c)
     [] c.op = "xopt" -> XOptCase(c)
     [] c.op = "xspec" -> XSpecCase(c)
@@ -570,6 +578,7 @@ Verdict(c) ==
     [] c.op = "pickle" -> PickleCase(c)
     [] c.op = "dataclass" -> DataclassCase(c)
     [] c.op = "partial" -> PartialCase(c)
+    [] c.op = "dataclass-hand" -> DataclassHand(c)
     [] c.op = "dataclass-args" -> Chk("empty-namespace", c.res["empty-namespace"] = "Value") \o Chk("non-string-namespace", c.res["non-string-namespace"] = "Type")
                                   \o Chk("non-class", c.res["non-class"] = "Type")
     [] c.op = "heap" -> HeapCase(c)
